@@ -276,9 +276,9 @@ theorem lookupW_wireSlots (E : Ext) (env : Env) (fields : List FieldDef) (name :
     unfold firstSet at ih ⊢
     by_cases hk : k = name
     · subst hk
-      cases x <;> simp [wireSlots, hf, lookupW, isNoneV, ih, List.find?_cons]
+      cases x <;> simp [wireSlots, hf, lookupW, isNoneV, ih]
     · cases hfk : fields.find? (·.name == k) <;> cases x <;>
-        simp [wireSlots, hfk, lookupW, isNoneV, ih, hk, List.find?_cons]
+        simp [wireSlots, hfk, lookupW, isNoneV, ih, hk]
 
 theorem find?_name_of_mem {fields : List FieldDef}
     (hinj : ∀ a ∈ fields, ∀ b ∈ fields, a.name = b.name → a = b) {f : FieldDef} (hf : f ∈ fields) :
